@@ -74,7 +74,9 @@ def domain_of(run, v):
             if z3.is_int_value(clo) and z3.is_int_value(chi) and chi.as_long() - clo.as_long() <= 6:
                 return Domain(items=[Num(k) for k in range(clo.as_long(), chi.as_long())])
             n = z3.If(hi - lo >= 0, hi - lo, z3.IntVal(0))
-            return Domain(z3.simplify(n), lambda i: Num(lo + i))
+            d = Domain(z3.simplify(n), lambda i: Num(lo + i))
+            d.range_lo = lo
+            return d
         if v.kind == 'enumerate':
             d = domain_of(run, v.payload)
             if d.items is not None:
@@ -897,6 +899,10 @@ def _dict_comp(run, n, g, dom):
         return m
     if g.ifs:
         raise Unsupported('filtered dict comprehension')
+    if dom.arm_seq is None and getattr(dom, 'range_lo', None) is not None and z3.is_int_value(z3.simplify(dom.range_lo)) \
+            and z3.simplify(dom.range_lo).as_long() == 0 and isinstance(n.key, ast.Name) and isinstance(g.target, ast.Name) \
+            and n.key.id == g.target.id:
+        return _range_dict_comp(run, n, g, dom)
     if dom.arm_seq is None:
         raise Unsupported('dict comprehension not keyed by an arm sequence')
 
@@ -906,6 +912,46 @@ def _dict_comp(run, n, g, dom):
         v = run.ev(n.value)
         return TupleV([k, v])
     return build_map_from_pairs(run, dom, body, 'line %d' % n.lineno)
+
+
+def _range_dict_comp(run, n, g, dom):
+    """{k: value(k) for k in range(n)}: a dictionary keyed by 0 .. n-1 (IMapO); the values are matrices (one generator
+    draw per key, in key order) or empty defaultdict(list) objects"""
+    from .libcalls import EmptyTabV
+    from .smt import Real
+
+    def body(elem):
+        run.assign(g.target, elem)
+        return run.ev(n.value)
+    if isinstance(n.value, ast.Call) and isinstance(n.value.func, ast.Name) and n.value.func.id == 'defaultdict':
+        saved0 = dict(run.env)
+        try:
+            probe = body(dom.elem(fresh('kprobe', Int)))        # a constant value: no state is touched
+        finally:
+            for k in list(run.env):
+                if k not in saved0:
+                    del run.env[k]
+        if isinstance(probe, EmptyTabV):
+            return run.st.alloc(IMapO(dom.n, z3.K(Int, z3.K(Real, F('iempty', ISeq)())), 'hashtab'))
+    d2 = Domain(dom.n, dom.elem)
+    d2.want_idxvals = True
+    saved = dict(run.env)
+    try:
+        iv = summarise(run, d2, body, where='line %d' % n.lineno, collect=True)
+    finally:
+        for k in list(run.env):
+            if k not in saved:
+                del run.env[k]
+    j = bound('jrc', Int)
+    v = iv.at(j)
+    if isinstance(v, MatV):
+        return run.st.alloc(IMapO(dom.n, z3.Lambda([j], v.term), 'mat'))
+    if isinstance(v, EmptyTabV):
+        empty = z3.K(Real, F('iempty', ISeq)())
+        return run.st.alloc(IMapO(dom.n, z3.K(Int, empty), 'hashtab'))
+    if isinstance(v, Ref) and isinstance(run.deref(v), ListO) and not run.deref(v).items:
+        return run.st.alloc(IMapO(dom.n, fresh('unset_planes', z3.ArraySort(Int, Mat)), 'mat'))     # {i: [] ...}: placeholders
+    raise Unsupported('dict comprehension over a range with values %r' % (v,))
 
 
 def build_map_from_pairs(run, dom, body, where):
